@@ -199,6 +199,8 @@ def check(model, tier):
         init = c.methods.get("__init__")
         if init is None:
             continue
+        if m.method(c, "__iter__") is None or m.method(c, "__iter__").is_abstract:
+            continue  # an intermediate base that only stores: its concrete subclasses are the ones that iterate
         stored = [src(t)[5:] for n in ast.walk(init.node) if isinstance(n, ast.Assign) for t in n.targets if src(t).startswith("self.")]
         readers = [f for k in m.mro(c) for f in k.methods.values() if f.name != "__init__"]
         for attr in stored:
